@@ -16,6 +16,7 @@ func init() {
 			c.ruleLockOrder()
 			c.ruleBalanced()
 			c.ruleBlockingUnderLock()
+			c.ruleAPICallbackUnderLock()
 			c.ruleWaitGroupPairing()
 			c.ruleHandoverCapacity()
 			c.ruleReentry()
